@@ -195,7 +195,9 @@ def families(tier):
     odd = ["2021-02-29T10:00:00Z", "2021-04-31T00:00:00", "2021-05-00T12:30:00+02:00", "2021-02-30", "2021-00-10", "2021-13-01",
            "0000-01-01", "24:00:00", "23:59:60", "12:30:00.1234567890123", "duration'P99999999999D'", "duration'PT0S'", "1e999", "-1e-999",
            "9" * 400 + ".5", "2021-02-29T25:00:00Z", "2020-02-29T23:59:59+23:59", "2020-02-29T23:59:59+24:00", "2020-02-29T23:59",
-           "00000000-0000-0000-0000-00000000000g", "geography'POINT(", "true1", "nullnull", "1..2", "1.e3", ".5", "5.", "0x10", "1_000"]
+           "00000000-0000-0000-0000-00000000000g", "geography'POINT(", "true1", "nullnull", "1..2", "1.e3", ".5", "5.", "0x10", "1_000",
+           # keywords spelled with the two letters that case-fold to ASCII under re.I (LONG S, KELVIN SIGN)
+           "fal\u017fe", "FAL\u017fE", "\u017f", "a eq\u00a0fal\u017fe", "\u212a", "nu\u0131l", "tr\u00fce"]
     for i, lit in enumerate(odd):
         for j, tpl in enumerate(["%s", "x eq %s", "%s eq x", "f.g(%s)", "x in (%s, 1)", "a/any(v: v eq %s)", "year(%s) eq 1", "not (%s ne x)"]):
             add("odd-literal-%d-%d" % (i, j), tpl % lit)
